@@ -60,6 +60,7 @@ def run(ctx):
     expandrules.parse_task_obligations(ctx, prog, 'C07')
     c05.parse_fsm_rule(ctx, prog, pfx='C07', crc_bits=False)
     c05.err_table_rule(ctx, prog, pfx='C07')
+    c05.run_bound_rule(ctx, prog, pfx='C07')
     import codecrules
     codecrules.unrle_walk(ctx, prog, 'C07', only=('runlen', 'space', 'read'))
     c19.work_rules(ctx, prog, A)
